@@ -109,10 +109,11 @@ def reopen(rng, sid):
     # at t0 arrives exactly at t0 + lat and the churn instants below really are before / AT / after the arrival.
     # Equal instants: whether the churn handler runs before or after the delivery is decided by which timer
     # was armed first -- the churn timer armed at top before anything is sent ("first" / "top"), or one tick
-    # after the sends ("last": the last hop carries the latency and its timer is older)
+    # after the sends, when the last hop (which then carries the latency) has armed its timer: "mid" = the
+    # churn runs while the datagram is inside the last queue's second stage, "last" = after the delivery
     exact = rng.random() < 0.35
-    order = rng.choice(["first", "last", "last", "top"]) if exact else "top"
-    if order == "last": where = "in"
+    order = rng.choice(["first", "mid", "last", "top"]) if exact else "top"
+    if order in ("mid", "last"): where = "in"
     nodes = [("n0", ["10.0.0.1"]), ("n1", ["10.0.1.1"])]
     if rng.random() < 0.3: nodes.append(("n2", ["10.0.2.1"]))
     L, ext = net_cfg(rng, nodes, lat=(0,) if exact else (0, 1000), bw=(0,) if exact else (0, 100000000, 1000000),
@@ -148,14 +149,14 @@ def reopen(rng, sid):
     burst(bctx, rng.choice([1, 2, 4, 6]))
     if rng.random() < 0.3:
         burst(P.at(max(t0, t1 - rng.choice([0, 1, 1000]))), rng.choice([1, 2]))
-    if order == "last" and t1 > t0 + 1:
+    if order in ("mid", "last") and t1 > t0 + 1:
         # armed one tick after the sends: the datagrams have crossed the zero-delay hops and wait in the last
         # queue, whose timer (t0 + lat) is therefore older than the churn timer
         # (a queue is two timer stages: arrival + latency, then + size/rate armed when the first fires; the
         # helper handler below runs after the first stage's callback and arms the churn timer, for the same
         # instant, behind the second stage's)
         actx = P.at(t0 + 1)
-        for _ in range(2):
+        for _ in range(2 if order == "last" else 1):          # "mid": churn between the two stages of the last queue
             k = P.nt; P.nt += 1; h = P.h()
             P.do(actx, "t%d.expires_at %d" % (k, t1)); P.do(actx, "t%d.wait h%d" % (k, h)); actx = "h%d" % h
         c = actx
